@@ -255,7 +255,7 @@ func (svc *service) writeMessage(msg message.Message) (int, error) {
 	if svc.out == nil {
 		return 0, ErrBufferNotReady
 	}
-	verifYield("writeMessage.enter", svc)
+	verifYield("writeMessage.enter", svc.id)
 
 	// This is to serialize writes to the underlying buffer. Multiple goroutines could
 	// potentially get here because of calling Publish() or Subscribe() or other
